@@ -140,6 +140,15 @@ func siblings(n, code, size int) []byte {
 	return v
 }
 
+// labelChain: one name of n/2 one-octet labels ended by the root octet
+func labelChain(n int) []byte {
+	var v []byte
+	for len(v)+3 <= n {
+		v = append(v, 1, 'a')
+	}
+	return append(v, 0)
+}
+
 func msg6(opts []byte) []byte { return append([]byte{1, 0xa, 0xb, 0xc}, opts...) }
 
 type family struct {
@@ -195,6 +204,18 @@ var families = []family{
 			v = append(v, 1, 'a')
 		}
 		return msg6(tlv(24, v))
+	}},
+	// name-bearing options the pinned library has no type for (AFTR-Name 64, SIP domain list 21, access domain 57, NIS
+	// domain 29): a decoder added for one of them is held to the same bound as the rest -- one terminated chain of
+	// thousands of one-octet labels, and thousands of short terminated names
+	{"label-chain-aftr-name", "v6", false, func(n int) []byte { return msg6(tlv(64, labelChain(n-8))) }},
+	{"label-chain-sip-domains", "v6", false, func(n int) []byte { return msg6(tlv(21, labelChain(n-8))) }},
+	{"short-names-untyped-codes", "v6", false, func(n int) []byte {
+		var v []byte
+		for i := 0; len(v)+4+7 <= n-4; i++ {
+			v = append(v, tlv([]int{64, 21, 57, 29, 30, 33, 58, 65}[i%8], []byte{1, 'a', 2, 'b', 'c', 0, 0}[:6+i%2])...)
+		}
+		return msg6(v)
 	}},
 	{"many-short-names", "v6", false, func(n int) []byte {
 		var v []byte
